@@ -1,8 +1,223 @@
-import SigmaVerif.Model.Pipe
+import SigmaVerif.Lemmas.Pipe
+/-!
+# C14 — pipelines compose in a defined order
+-/
 namespace SigmaVerif.Props.C14
 open SigmaVerif.Pipe
 
+/-! ## 1. `+` is associative with the empty pipeline as identity -/
+
 theorem add_assoc (a b c : P) : (a.add b).add c = a.add (b.add c) := by
   simp [P.add, List.append_assoc]
+
+theorem add_empty_left (a : P) : P.empty.add a = a := by
+  cases a; simp [P.add, P.empty]
+
+theorem add_empty_right (a : P) : a.add P.empty = a := by
+  cases a; simp [P.add, P.empty]
+
+/-! ## 2. variables of the later pipeline override those of the earlier one -/
+
+theorem vars_right_biased (a b : P) (k : Nat) :
+    lookupVar (a.add b).vars k = (lookupVar b.vars k).orElse (fun _ => lookupVar a.vars k) := by
+  rw [Option.orElse_eq_or]
+  exact lookupVar_append a.vars b.vars k
+
+/-! ## 3. the resolver: stable sort by (priority, name) -/
+
+theorem sortSpecs_perm (l : List Spec) : (sortSpecs l).Perm l := sortSpecs_perm' l
+
+theorem sortSpecs_sorted (l : List Spec) :
+    (sortSpecs l).Pairwise (fun a b => Spec.le a b = true) := sortSpecs_sorted' l
+
+/-- stability: the specifiers with one and the same (priority, name) keep their input order -/
+theorem sortSpecs_stable (l : List Spec) (pr nm : Nat) :
+    (sortSpecs l).filter (fun s => s.priority == pr && s.name == nm) =
+      l.filter (fun s => s.priority == pr && s.name == nm) :=
+  sortSpecs_filter_key pr nm l
+
+/-- naming the same pipelines in any order (also: some of them several times) yields the same
+combined pipeline, provided one (priority, name) denotes one pipeline -/
+theorem resolve_perm (l1 l2 : List Spec) (hp : l1.Perm l2)
+    (hkey : ∀ a ∈ l1, ∀ b ∈ l1, a.priority = b.priority → a.name = b.name → a = b) :
+    resolve l1 = resolve l2 := by
+  rw [resolve, resolve, sortSpecs_eq_of_perm l1 l2 hp hkey]
+
+/-- non-vacuity of `resolve_perm` (a duplicated specifier included) … -/
+example :
+    let e : P := ⟨[], [], [], []⟩
+    let l1 : List Spec := [⟨20, 1, e⟩, ⟨10, 2, e⟩, ⟨10, 2, e⟩, ⟨10, 1, ⟨[7], [], [], []⟩⟩]
+    (∀ a ∈ l1, ∀ b ∈ l1, a.priority = b.priority → a.name = b.name → a = b) ∧
+      (resolve l1).items = [7] := by decide
+
+/-- … and the hypothesis cannot be dropped: two different pipelines under the same key are summed
+in the order in which they were named -/
+theorem resolve_perm_needs_key :
+    ∃ l1 l2 : List Spec, l1.Perm l2 ∧ resolve l1 ≠ resolve l2 :=
+  ⟨[⟨0, 0, ⟨[1], [], [], []⟩⟩, ⟨0, 0, ⟨[2], [], [], []⟩⟩],
+   [⟨0, 0, ⟨[2], [], [], []⟩⟩, ⟨0, 0, ⟨[1], [], [], []⟩⟩],
+   List.Perm.swap .., by decide⟩
+
+/-! ## 4. the resolved pipeline lists the pipelines' parts in sorted order -/
+
+theorem resolve_order (l : List Spec) :
+    (resolve l).items = (sortSpecs l).flatMap (·.pipe.items) ∧
+    (resolve l).post = (sortSpecs l).flatMap (·.pipe.post) ∧
+    (resolve l).fins = (sortSpecs l).flatMap (·.pipe.fins) ∧
+    (resolve l).vars = (sortSpecs l).flatMap (·.pipe.vars) := by
+  rw [resolve_eq]
+  simp [sumP, List.flatMap_map]
+
+/-! ## 5. backend pipeline, then the user's, then the output format's -/
+
+theorem backend_order (b u f : P) :
+    (initPipeline b u f).items = b.items ++ u.items ++ f.items ∧
+    (initPipeline b u f).post = b.post ++ u.post ++ f.post ∧
+    (initPipeline b u f).fins = b.fins ++ u.fins ++ f.fins := ⟨rfl, rfl, rfl⟩
+
+theorem init_vars (b u f : P) (k : Nat) :
+    lookupVar (initPipeline b u f).vars k =
+      match lookupVar f.vars k with
+      | some v => some v
+      | none => match lookupVar u.vars k with
+        | some v => some v
+        | none => lookupVar b.vars k := by
+  show lookupVar ((b.vars ++ u.vars) ++ f.vars) k = _
+  rw [lookupVar_append, lookupVar_append]
+  cases lookupVar f.vars k <;> cases lookupVar u.vars k <;> simp
+
+/-! ## 6. stage order of a conversion -/
+
+/-- the trace is one block per rule (in rule order) followed by the finalizers; a rule's block is
+its transformations in item order followed, per condition, by the conversion and the
+post-processing items in item order -/
+theorem trace_structure (p : P) (rules : List (Nat × Nat)) :
+    trace p rules = rules.flatMap (ruleBlock p) ++ p.fins.map Ev.finalize ∧
+    ∀ r, ruleBlock p r =
+      p.items.map (fun i => Ev.transform i r.1) ++
+        (List.range r.2).flatMap (fun c =>
+          Ev.convert r.1 c :: p.post.map (fun q => Ev.postprocess q r.1 c)) :=
+  ⟨rfl, fun _ => rfl⟩
+
+/-- every event of a rule's block belongs to that rule, so with distinct rule ids the events of
+a rule are exactly its block: everything before and after belongs to other rules or is a
+finalizer -/
+theorem trace_rule_block (p : P) (rs1 rs2 : List (Nat × Nat)) (r : Nat × Nat)
+    (hr : ∀ x ∈ rs1 ++ rs2, x.1 ≠ r.1) :
+    trace p (rs1 ++ r :: rs2) =
+      rs1.flatMap (ruleBlock p) ++ ruleBlock p r ++
+        (rs2.flatMap (ruleBlock p) ++ p.fins.map Ev.finalize) ∧
+    (∀ e ∈ ruleBlock p r, e.rule? = some r.1) ∧
+    (∀ e ∈ rs1.flatMap (ruleBlock p), e.rule? ≠ some r.1) ∧
+    (∀ e ∈ rs2.flatMap (ruleBlock p) ++ p.fins.map Ev.finalize, e.rule? ≠ some r.1) := by
+  refine ⟨by simp [trace_eq, List.append_assoc], ruleBlock_rule p r, ?_, ?_⟩
+  · intro e he
+    obtain ⟨x, hx, hex⟩ := List.mem_flatMap.1 he
+    rw [ruleBlock_rule p x e hex]
+    intro h
+    exact hr x (List.mem_append_left _ hx) (Option.some.inj h)
+  · intro e he
+    rcases List.mem_append.1 he with he | he
+    · obtain ⟨x, hx, hex⟩ := List.mem_flatMap.1 he
+      rw [ruleBlock_rule p x e hex]
+      intro h
+      exact hr x (List.mem_append_right _ hx) (Option.some.inj h)
+    · obtain ⟨q, _, rfl⟩ := List.mem_map.1 he
+      simp [Ev.rule?]
+
+/-- all transformations of a rule precede all its conversions and post-processing events -/
+theorem trace_transform_before_query (p : P) (rules : List (Nat × Nat)) (r : Nat)
+    (hnd : (rules.map (·.1)).Nodup) :
+    (trace p rules).Pairwise
+      (fun e1 e2 => ¬ (e1.isQueryOfRule r = true ∧ e2.isTransformOfRule r = true)) := by
+  rw [trace_eq, List.pairwise_append]
+  refine ⟨?_, ?_, ?_⟩
+  · rw [List.pairwise_flatMap]
+    refine ⟨fun x _ => ruleBlock_pairwise p x r, ?_⟩
+    rw [List.Nodup, List.pairwise_map] at hnd
+    refine hnd.imp ?_
+    intro x y hxy e1 h1 e2 h2 ⟨hq, ht⟩
+    have a1 := ruleBlock_rule p x e1 h1
+    have a2 := ruleBlock_rule p y e2 h2
+    rw [rule?_of_isQueryOfRule hq] at a1
+    rw [rule?_of_isTransformOfRule ht] at a2
+    exact hxy ((Option.some.inj a1).symm.trans (Option.some.inj a2))
+  · apply List.pairwise_of_forall_mem_list
+    intro e1 _ e2 h2
+    obtain ⟨q, _, rfl⟩ := List.mem_map.1 h2
+    simp [Ev.isTransformOfRule]
+  · intro e1 _ e2 h2
+    obtain ⟨q, _, rfl⟩ := List.mem_map.1 h2
+    simp [Ev.isTransformOfRule]
+
+/-- wherever a conversion occurs in the trace it is immediately followed by the post-processing
+events of exactly that rule and condition, for all post-processing items in item order, and by
+no further post-processing event -/
+theorem convert_then_postprocess (p : P) (rules : List (Nat × Nat)) (xs ys : List Ev) (r c : Nat)
+    (h : trace p rules = xs ++ Ev.convert r c :: ys) :
+    ∃ zs, ys = p.post.map (fun q => Ev.postprocess q r c) ++ zs ∧
+      ∀ e, zs.head? = some e → e.isPostprocess = false := by
+  obtain ⟨zs, hz, hz'⟩ := (ConvOK.trace p rules).2 [] (fun e h => by simp at h) xs r c ys h
+  exact ⟨zs, by simpa [posts] using hz, hz'⟩
+
+/-- finalizers run once each, in order, after everything else -/
+theorem trace_finalize_last (p : P) (rules : List (Nat × Nat)) :
+    (trace p rules).filter Ev.isFinalize = p.fins.map Ev.finalize ∧
+    p.fins.map Ev.finalize <:+ trace p rules ∧
+    ∀ e ∈ rules.flatMap (ruleBlock p), e.isFinalize = false := by
+  have h3 : ∀ e ∈ rules.flatMap (ruleBlock p), e.isFinalize = false := by
+    intro e he
+    obtain ⟨x, _, hex⟩ := List.mem_flatMap.1 he
+    have := ruleBlock_rule p x e hex
+    cases e <;> simp_all [Ev.rule?, Ev.isFinalize]
+  refine ⟨?_, ⟨_, (trace_eq p rules).symm⟩, h3⟩
+  rw [trace_eq, List.filter_append]
+  have h1 : (rules.flatMap (ruleBlock p)).filter Ev.isFinalize = [] := by
+    rw [List.filter_eq_nil_iff]
+    intro e he; simp [h3 e he]
+  have h2 : (p.fins.map Ev.finalize).filter Ev.isFinalize = p.fins.map Ev.finalize := by
+    rw [List.filter_eq_self]
+    intro e he
+    obtain ⟨q, _, rfl⟩ := List.mem_map.1 he
+    rfl
+  rw [h1, h2, List.nil_append]
+
+/-- non-vacuity of the stage-order theorems: a concrete trace -/
+example :
+    trace ⟨[1, 2], [8, 9], [5], []⟩ [(0, 2), (3, 1)] =
+      [.transform 1 0, .transform 2 0,
+       .convert 0 0, .postprocess 8 0 0, .postprocess 9 0 0,
+       .convert 0 1, .postprocess 8 0 1, .postprocess 9 0 1,
+       .transform 1 3, .transform 2 3,
+       .convert 3 0, .postprocess 8 3 0, .postprocess 9 3 0,
+       .finalize 5] ∧
+    ([(0, 2), (3, 1)].map (·.1)).Nodup := by decide
+
+/-! ## 7. converting with `a + b` -/
+
+theorem trace_add (a b : P) (rules : List (Nat × Nat)) :
+    trace (a.add b) rules =
+      trace ⟨a.items ++ b.items, a.post ++ b.post, a.fins ++ b.fins, a.vars ++ b.vars⟩ rules := rfl
+
+/-- the transformations applied to rule `r`: `a`'s items then `b`'s, once for every rule with
+id `r` in the input … -/
+theorem trace_add_transforms (a b : P) (rules : List (Nat × Nat)) (r : Nat) :
+    (trace (a.add b) rules).filter (Ev.isTransformOfRule r) =
+      (rules.filter (fun x => x.1 == r)).flatMap
+        (fun _ => (a.items ++ b.items).map (fun i => Ev.transform i r)) :=
+  trace_filter_transformOfRule (a.add b) rules r
+
+/-- … in particular exactly once if the rule id occurs once -/
+theorem trace_add_transforms_once (a b : P) (rules : List (Nat × Nat)) (r : Nat)
+    (h1 : rules.countP (fun x => x.1 == r) = 1) :
+    (trace (a.add b) rules).filter (Ev.isTransformOfRule r) =
+      (a.items ++ b.items).map (fun i => Ev.transform i r) := by
+  rw [trace_add_transforms]
+  rw [List.countP_eq_length_filter] at h1
+  generalize rules.filter (fun x => x.1 == r) = fl at h1
+  match fl, h1 with
+  | [x], _ => simp
+
+example : [(4, 1), (5, 2)].countP (fun x => x.1 == 5) = 1 := by decide
 
 end SigmaVerif.Props.C14
